@@ -1,0 +1,181 @@
+//! Verification hooks. Compiled only with `--cfg rce_verif`; with the guard
+//! off this module does not exist and none of its call sites are compiled.
+//!
+//! * `sched_point(label)`  - labelled schedule points (optional sleep / trace)
+//! * `tt_gate()`           - empties the transposition table while caching is switched off
+//! * `tt_inserted(..)`     - observer of transposition-table writes
+
+use std::sync::atomic::{AtomicBool, AtomicU64, Ordering};
+use std::sync::{Mutex, OnceLock};
+use std::time::{Duration, Instant};
+
+use crate::board::transposition_table::{TTEntry, TRANSPOSITION_TABLE};
+use crate::board::zkey::ZKey;
+
+// ---------------------------------------------------------------------------
+// Schedule points
+// ---------------------------------------------------------------------------
+
+struct SchedRule {
+    label: String,
+    hit: Option<u64>,
+    sleep_ms: u64,
+}
+
+struct Sched {
+    rules: Vec<SchedRule>,
+    trace: bool,
+    epoch: Instant,
+    hits: Mutex<Vec<(String, u64)>>,
+}
+
+static SCHED: OnceLock<Sched> = OnceLock::new();
+
+/// `RCE_VERIF_SCHED` is a comma separated list of `label[@hit]=sleep:<ms>`;
+/// `RCE_VERIF_TRACE=1` writes one `@@EVT` line per point to stderr.
+fn sched() -> &'static Sched {
+    SCHED.get_or_init(|| {
+        let mut rules = Vec::new();
+        if let Ok(spec) = std::env::var("RCE_VERIF_SCHED") {
+            for item in spec.split(',').filter(|s| !s.is_empty()) {
+                let Some((lhs, rhs)) = item.split_once('=') else {
+                    continue;
+                };
+                let Some(ms) = rhs.strip_prefix("sleep:").and_then(|v| v.parse().ok()) else {
+                    continue;
+                };
+                let (label, hit) = match lhs.split_once('@') {
+                    Some((l, h)) => (l.to_string(), h.parse().ok()),
+                    None => (lhs.to_string(), None),
+                };
+                rules.push(SchedRule {
+                    label,
+                    hit,
+                    sleep_ms: ms,
+                });
+            }
+        }
+        Sched {
+            rules,
+            trace: std::env::var("RCE_VERIF_TRACE").is_ok_and(|v| v == "1"),
+            epoch: Instant::now(),
+            hits: Mutex::new(Vec::new()),
+        }
+    })
+}
+
+/// A labelled point in the code. Does nothing unless asked to through the environment.
+pub fn sched_point(label: &str) {
+    let s = sched();
+    if !s.trace && s.rules.is_empty() {
+        return;
+    }
+
+    let hit = {
+        let mut hits = s.hits.lock().unwrap();
+        if let Some(entry) = hits.iter_mut().find(|(l, _)| l == label) {
+            entry.1 += 1;
+            entry.1
+        } else {
+            hits.push((label.to_string(), 1));
+            1
+        }
+    };
+
+    if s.trace {
+        eprintln!(
+            "@@EVT {} {:?} {label}#{hit}",
+            s.epoch.elapsed().as_micros(),
+            std::thread::current().id()
+        );
+    }
+
+    for rule in &s.rules {
+        if rule.label == label && rule.hit.map_or(true, |h| h == hit) {
+            std::thread::sleep(Duration::from_millis(rule.sleep_ms));
+            if s.trace {
+                eprintln!(
+                    "@@EVT {} {:?} {label}#{hit}.woke",
+                    s.epoch.elapsed().as_micros(),
+                    std::thread::current().id()
+                );
+            }
+        }
+    }
+}
+
+// ---------------------------------------------------------------------------
+// Transposition table: switch and write observer
+// ---------------------------------------------------------------------------
+
+/// While set, `tt_gate` empties the table before every probe.
+pub static TT_OFF: AtomicBool = AtomicBool::new(false);
+
+pub fn tt_gate() {
+    if TT_OFF.load(Ordering::Relaxed) {
+        TRANSPOSITION_TABLE
+            .write()
+            .expect("Transposition table is poisoned! Unable to clear.")
+            .clear();
+    }
+}
+
+#[derive(Clone, Debug, PartialEq, Eq)]
+pub struct TtEvent {
+    pub seq: u64,
+    pub site: &'static str,
+    pub key: ZKey,
+    /// What the table holds for `key` right after the write.
+    pub entry: Option<TTEntry>,
+    pub nodes: u64,
+    pub node_budget: Option<u64>,
+    pub running: bool,
+}
+
+static TT_SEQ: AtomicU64 = AtomicU64::new(0);
+static TT_LOG: Mutex<Option<Vec<TtEvent>>> = Mutex::new(None);
+
+/// Starts (or restarts) recording of table writes.
+#[allow(dead_code)]
+pub fn tt_record_start() {
+    TT_SEQ.store(0, Ordering::Relaxed);
+    *TT_LOG.lock().unwrap_or_else(std::sync::PoisonError::into_inner) = Some(Vec::new());
+}
+
+/// Stops recording and returns what was recorded.
+#[allow(dead_code)]
+pub fn tt_record_take() -> Vec<TtEvent> {
+    TT_LOG
+        .lock()
+        .unwrap_or_else(std::sync::PoisonError::into_inner)
+        .take()
+        .unwrap_or_default()
+}
+
+/// Called after a write to the table at `site`.
+pub fn tt_inserted(
+    site: &'static str,
+    key: ZKey,
+    nodes: u64,
+    node_budget: Option<u64>,
+    running: bool,
+) {
+    let mut guard = TT_LOG.lock().unwrap_or_else(std::sync::PoisonError::into_inner);
+    let Some(log) = guard.as_mut() else {
+        return;
+    };
+    let entry = TRANSPOSITION_TABLE
+        .read()
+        .expect("Transposition table is poisoned! Unable to read entry.")
+        .get(&key)
+        .copied();
+    log.push(TtEvent {
+        seq: TT_SEQ.fetch_add(1, Ordering::Relaxed),
+        site,
+        key,
+        entry,
+        nodes,
+        node_budget,
+        running,
+    });
+}
